@@ -178,6 +178,18 @@ fn texts_of(t: &Tgt, out: &mut Vec<(String, usize, usize)>) {
     }
 }
 
+/// JSON-LD expansion of a compact IRI through the prefixes the exported @context declares
+fn expand_compact(k: &str, context: &Value) -> String {
+    if let (Some((prefix, local)), Some(arr)) = (k.split_once(':'), context.as_array()) {
+        for entry in arr {
+            if let Some(uri) = entry.as_object().and_then(|o| o.get(prefix)).and_then(|u| u.as_str()) {
+                return format!("{}{}", uri, local);
+            }
+        }
+    }
+    k.to_string()
+}
+
 fn gen_config(rng: &mut Rng) -> (WebAnnoConfig, String) {
     let mut c = WebAnnoConfig::default();
     c.auto_generated = false;
@@ -207,8 +219,10 @@ fn gen_config(rng: &mut Rng) -> (WebAnnoConfig, String) {
         name.push("extra-context");
     }
     if rng.chance(1, 4) {
-        c = c.with_namespace("ex".into(), "https://example.org/set/".into());
-        name.push("namespace");
+        // a namespace that ends in a separator, one that does not (the local part then starts with '/'), and a short one
+        let (uri, n) = *rng.pick(&[("https://example.org/set/", "namespace"), ("https://example.org/set", "namespace-without-separator"), ("https://example.org/", "namespace-short"), ("https://example.org", "namespace-host")]);
+        c = c.with_namespace("ex".into(), uri.into());
+        name.push(n);
     }
     if rng.chance(1, 4) {
         c.extra_target_template = Some("{resource}/{begin}/{end}".into());
@@ -354,8 +368,13 @@ fn check_annotation(rep: &mut Report, h: &History, ah: usize, cfg: &WebAnnoConfi
                 (&parsed["body"], key.clone())
             }
         } else {
+            // the predicate is whichever member of the body expands, through the exported @context, to the IRI of the key
             let iri = into_iri(key, &into_iri(set, &cfg.default_set_iri));
-            (&parsed["body"], cfg.uri_to_namespace(&iri).to_string())
+            let found = parsed["body"].as_object().and_then(|o| o.keys().find(|k| expand_compact(k, &parsed["@context"]) == iri).cloned());
+            if found.is_some() && !cfg.context_namespaces.is_empty() {
+                rep.distinct(&format!("body-predicate-expanded/{}", cfgname));
+            }
+            (&parsed["body"], found.unwrap_or(iri))
         };
         rep.distinct(&format!("body/{}", valueclass(value)));
         match holder.get(&pred) {
